@@ -1,6 +1,189 @@
-"""Regex matching over segmented symbolic strings (subset: literals, \\d, \\w, +, ?, groups)."""
+"""Regex matching over byte strings with symbolic bytes.
+
+A backtracking matcher (leftmost-first, greedy — the semantics of the `regex` crate's `captures` for the
+constructs supported here) whose character tests are decided by the solver. Supported: literals, `\\d`, `\\w`,
+`\\s`, `.`, character sets, greedy `+ * ? {m,n}`, groups (named / numbered), concatenation, alternation.
+Symbolic bytes are ASCII by construction; concrete non-ASCII bytes make the match inconclusive.
+"""
+import re
+import z3
 from .interp import Inconclusive
+from .sstr import SStr
+
+try:
+    import re._parser as sre_parse
+    import re._constants as sre_c
+except ImportError:  # pragma: no cover
+    import sre_parse
+    import sre_constants as sre_c
+
+
+class Fail(Exception):
+    pass
+
+
+def char_test(ctx, c, node):
+    """does byte c match the single-character node? (forks when undecided)"""
+    op, av = node
+    if op is sre_c.LITERAL:
+        if type(c) is int:
+            return c == av
+        return ctx.decide(c == av)
+    if op is sre_c.NOT_LITERAL:
+        if type(c) is int:
+            return c != av
+        return ctx.decide(c != av)
+    if op is sre_c.ANY:
+        if type(c) is int:
+            return c != 10
+        return ctx.decide(c != 10)
+    if op is sre_c.IN:
+        neg = False
+        items = av
+        if items and items[0][0] is sre_c.NEGATE:
+            neg = True
+            items = items[1:]
+        res = False
+        for it in items:
+            if set_item(ctx, c, it):
+                res = True
+                break
+        return res != neg
+    raise Inconclusive("regex node %r" % (op,))
+
+
+def set_item(ctx, c, it):
+    op, av = it
+    if op is sre_c.LITERAL:
+        return (c == av) if type(c) is int else ctx.decide(c == av)
+    if op is sre_c.RANGE:
+        lo, hi = av
+        return (lo <= c <= hi) if type(c) is int else ctx.decide(z3.And(c >= lo, c <= hi))
+    if op is sre_c.CATEGORY:
+        return category(ctx, c, av)
+    raise Inconclusive("regex set item %r" % (op,))
+
+
+def category(ctx, c, cat):
+    if type(c) is int and c >= 0x80:
+        raise Inconclusive("regex class test on a non-ASCII byte")
+    if cat is sre_c.CATEGORY_DIGIT:
+        return ctx.char_in(c, "digit")
+    if cat is sre_c.CATEGORY_NOT_DIGIT:
+        return not ctx.char_in(c, "digit")
+    if cat is sre_c.CATEGORY_WORD:
+        return ctx.char_in(c, "word")
+    if cat is sre_c.CATEGORY_NOT_WORD:
+        return not ctx.char_in(c, "word")
+    if cat is sre_c.CATEGORY_SPACE:
+        if type(c) is int:
+            return c in (9, 10, 11, 12, 13, 32)
+        return ctx.decide(z3.Or(c == 32, z3.And(c >= 9, c <= 13)))
+    raise Inconclusive("regex category %r" % (cat,))
+
+
+class Matcher:
+    def __init__(self, ctx, chars):
+        self.ctx = ctx
+        self.s = chars
+        self.n = len(chars)
+        self.steps = 0
+
+    def m(self, nodes, i, pos, groups, k):
+        """match nodes[i:] at pos, then continuation k(pos, groups); returns result of k or None"""
+        self.steps += 1
+        if self.steps > 200000:
+            raise Inconclusive("regex step budget")
+        if i == len(nodes):
+            return k(pos, groups)
+        op, av = nodes[i]
+        if op in (sre_c.LITERAL, sre_c.NOT_LITERAL, sre_c.ANY, sre_c.IN):
+            if pos >= self.n:
+                return None
+            if char_test(self.ctx, self.s[pos], (op, av)):
+                return self.m(nodes, i + 1, pos + 1, groups, k)
+            return None
+        if op is sre_c.SUBPATTERN:
+            gid, _af, _df, sub = av
+            sub = list(sub)
+
+            def after(p2, g2):
+                g3 = g2
+                if gid is not None:
+                    g3 = dict(g2)
+                    g3[gid] = (pos, p2)
+                return self.m(nodes, i + 1, p2, g3, k)
+            return self.m(sub, 0, pos, groups, after)
+        if op in (sre_c.MAX_REPEAT, sre_c.MIN_REPEAT):
+            lo, hi, sub = av
+            sub = list(sub)
+            greedy = op is sre_c.MAX_REPEAT
+            if hi is sre_c.MAXREPEAT:
+                hi = 1 << 30
+            return self.rep(nodes, i, sub, lo, hi, greedy, 0, pos, groups, k)
+        if op is sre_c.BRANCH:
+            _, alts = av
+            for alt in alts:
+                r = self.m(list(alt), 0, pos, groups, lambda p2, g2: self.m(nodes, i + 1, p2, g2, k))
+                if r is not None:
+                    return r
+            return None
+        if op is sre_c.AT:
+            if av in (sre_c.AT_BEGINNING, sre_c.AT_BEGINNING_STRING):
+                return self.m(nodes, i + 1, pos, groups, k) if pos == 0 else None
+            if av in (sre_c.AT_END, sre_c.AT_END_STRING):
+                return self.m(nodes, i + 1, pos, groups, k) if pos == self.n else None
+            raise Inconclusive("regex anchor %r" % (av,))
+        raise Inconclusive("regex op %r" % (op,))
+
+    def rep(self, nodes, i, sub, lo, hi, greedy, count, pos, groups, k):
+        def more():
+            if count >= hi:
+                return None
+
+            def after(p2, g2):
+                if p2 == pos and count >= lo:
+                    return None  # empty iteration
+                return self.rep(nodes, i, sub, lo, hi, greedy, count + 1, p2, g2, k)
+            return self.m(sub, 0, pos, groups, after)
+
+        def stop():
+            if count < lo:
+                return None
+            return self.m(nodes, i + 1, pos, groups, k)
+        if greedy:
+            r = more()
+            if r is not None:
+                return r
+            return stop()
+        r = stop()
+        if r is not None:
+            return r
+        return more()
 
 
 def sym_captures(ctx, rx, s):
-    raise Inconclusive("regex on symbolic string not modelled yet: %s" % rx.pattern)
+    """returns (named dict, index list) of SStr or None"""
+    pat = sre_parse.parse(rx.pattern)
+    nodes = list(pat)
+    names = dict(pat.state.groupdict)
+    ngroups = pat.state.groups
+    chars = list(s.chars)
+    for c in chars:
+        if type(c) is int and c >= 0x80:
+            raise Inconclusive("regex over text with non-ASCII bytes and symbolic parts")
+    mt = Matcher(ctx, chars)
+    for start in range(0, len(chars) + 1):
+        r = mt.m(nodes, 0, start, {}, lambda p2, g2: (p2, g2))
+        if r is not None:
+            end, groups = r
+            idx = [SStr.of_chars(chars[start:end])]
+            for g in range(1, ngroups):
+                sp = groups.get(g)
+                idx.append(None if sp is None else SStr.of_chars(chars[sp[0]:sp[1]]))
+            named = {}
+            for nm, g in names.items():
+                sp = groups.get(g)
+                named[nm] = None if sp is None else SStr.of_chars(chars[sp[0]:sp[1]])
+            return named, idx
+    return None
